@@ -44,7 +44,9 @@ class CProto(Protocol):
     def sh(self) -> Stream[ProducerState, Hdr]: ...
 
 
-ACCEPT = {"absent": None, "any": "*/*", "json": "application/json", "html": "text/html",
+ACCEPT = {"text_plain": "text/plain, text/*;q=0.5", "xml": "application/xml, application/xhtml+xml;q=0.9",
+          "json_q": "application/json;q=0.9, */*;q=0.1", "empty": "",
+          "absent": None, "any": "*/*", "json": "application/json", "html": "text/html",
           "html_mixed": "text/html,application/xhtml+xml,application/xml;q=0.9,*/*;q=0.8",
           "arrow": "application/vnd.apache.arrow.stream"}
 _NOTE = re.compile(r'<div class="note"><strong>.*?</strong>(.*?)</div>', re.S)
@@ -52,16 +54,26 @@ _NOTE = re.compile(r'<div class="note"><strong>.*?</strong>(.*?)</div>', re.S)
 
 def _consts(quick: bool) -> dict:
     if quick:
-        return {"Outs": Raw('{"ok", "miss", "inv", "exp", "ve", "pe", "proof", "down", "bogus"}'),
+        return {"Outs": Raw('{"ok", "miss", "inv", "exp", "ve", "pe", "proof", "down", "bogus", "ve_sub", "pe_attr"}'),
                 "Outs3": Raw('{"ok", "miss", "exp", "pe", "down"}'), "Deep": False}
-    return {"Outs": Raw('{"ok", "miss", "inv", "exp", "scope", "proxy", "unauth", "ve", "pe", "proof", "down", "bogus"}'),
-            "Outs3": Raw('{"ok", "miss", "inv", "exp", "scope", "proxy", "unauth", "ve", "pe", "proof", "down", "bogus"}'),
+    return {"Outs": Raw('{"ok", "miss", "inv", "exp", "scope", "proxy", "unauth", "ve", "pe", "proof", "down", "bogus", "ve_sub", "pe_attr"}'),
+            "Outs3": Raw('{"ok", "miss", "inv", "exp", "scope", "proxy", "unauth", "ve", "pe", "proof", "down", "bogus", "ve_sub", "pe_attr"}'),
             "Deep": True}
+
+
+class _Foreign401:
+    """A resource behind the authenticator that answers 401 itself (not the authenticate callback)."""
+
+    def on_post(self, req, resp) -> None:
+        import falcon
+
+        raise falcon.HTTPUnauthorized(description="this resource needs a fresher login")
 
 
 class _Services:
     def __init__(self) -> None:
         self.server, self.proto = W.build_service({"plain": "unary", "s": "producer"})
+        self.otel_server, _ = W.build_service({"plain": "unary", "s": "producer"})     # (instrumentation mutates the server)
         self.apps: dict = {}
 
     def app(self, cfg: dict, tree: dict):
@@ -70,13 +82,22 @@ class _Services:
             from vgi_rpc.http._oauth import OAuthResourceMetadata
 
             meta = None
-            if cfg["pkce"]:
+            if cfg["pkce"] or cfg["www"]:
                 meta = OAuthResourceMetadata(resource="http://localhost:8000/", authorization_servers=("http://127.0.0.1:1",),
-                                             client_id="cid")
-            client = W.make_sync_client(self.server, token_key=W.KEY, authenticate=W.build_tree(tree),
+                                             client_id="cid" if cfg["pkce"] else None)
+            otel = None
+            if cfg["otel"]:
+                from vgi_rpc.otel import OtelConfig
+
+                otel = OtelConfig()
+            client = W.make_sync_client(self.otel_server if cfg["otel"] else self.server, token_key=W.KEY,
+                                        authenticate=W.build_tree(tree),
                                         proxy_auth_headers=["X-Custom-Client-Cert"] if cfg["pah"] else None,
-                                        proxy_proof_required=cfg["ppr"], oauth_resource_metadata=meta, enable_sticky=True)
-            self.apps[key] = (client, {"notes": {}, "seq": []})
+                                        proxy_proof_required=cfg["ppr"], oauth_resource_metadata=meta, enable_sticky=True,
+                                        upload_url_provider=W.UploadProvider(), introspect_resolver=W.token_resolver,
+                                        introspect_principals=["alice"], otel_config=otel)
+            client._client.app.add_route("/__foreign401__", _Foreign401())
+            self.apps[key] = (client, {"notes": {}, "seq": [], "flooded": False})
         return key, self.apps[key]
 
 
@@ -86,6 +107,15 @@ def _send(client, route: str, headers: dict, ubody: bytes):
         return W.request(client, "POST", "/plain", ubody, {**ct, **headers})
     if route == "init":
         return W.request(client, "POST", "/s/init", W.init_body("s"), {**ct, **headers})
+    if route == "exchange":
+        return W.request(client, "POST", "/s/exchange", W.init_body("s"), {**ct, **headers})
+    if route == "upload":
+        return W.request(client, "POST", "/__upload_url__/init", W.upload_body(), {**ct, **headers})
+    if route == "introspect_token":
+        return W.request(client, "POST", "/__introspect_token__", b'{"token": "opaque"}',
+                         {"Content-Type": "application/json", **headers})
+    if route == "foreign":
+        return W.request(client, "POST", "/__foreign401__", b"", headers)
     if route == "describe":
         return W.request(client, "POST", "/__describe__", W.init_body("__describe__"), {**ct, **headers})
     if route == "landing":
@@ -211,18 +241,60 @@ class _Fake401:
         pass
 
 
+class _LateFake401:
+    """A real (unauthenticated) application for the opening request of a stream; every later turn
+    (POST .../exchange) is answered 401 with the given body -- e.g. a credential that expired mid-stream."""
+
+    def __init__(self, real, body: bytes, ctype: str) -> None:
+        self._real, self.prefix = real, real.prefix
+        self._fake = _Fake401(body, ctype)
+
+    def post(self, url, *, content, headers):
+        if url.endswith("/exchange"):
+            return self._fake.post(url, content=content, headers=headers)
+        return self._real.post(url, content=content, headers=headers)
+
+    def __getattr__(self, k):
+        return getattr(self._real, k)
+
+
+_LATE: dict = {}
+
+
+def _late_world():
+    if not _LATE:
+        server, proto = W.build_service({"ex": "exchange", "s": "producer"})
+        _LATE["proto"] = proto
+        _LATE["client"] = W.make_sync_client(server, token_key=W.KEY)
+    return _LATE["proto"], _LATE["client"]
+
+
 def _client_case(case: dict) -> dict:
-    from vgi_rpc.http import http_connect
+    from vgi_rpc.http import http_connect, http_introspect, request_upload_urls
     from vgi_rpc.http._client import _parse_unauthorized
 
     body = _client_body(case["shape"], case["reason"])
+    ctype = "text/html" if case["shape"].startswith("html") else "application/json"
     raised, reason = "", ""
     try:
-        if case["entry"] == "parse":
+        if case["entry"] == "introspect":
+            http_introspect(client=_Fake401(body, ctype))
+        elif case["entry"] == "upload_urls":
+            request_upload_urls(client=_Fake401(body, ctype))
+        elif case["entry"] in ("exchange_turn", "continuation"):
+            proto, real = _late_world()
+            with http_connect(proto, client=_LateFake401(real, body, ctype)) as proxy:
+                if case["entry"] == "exchange_turn":
+                    sess = proxy.ex()
+                    sess.exchange(W.AnnotatedBatch.from_pydict({"v": [1]}, schema=W.SCH))
+                else:
+                    for _ in proxy.s():
+                        pass
+        elif case["entry"] == "parse":
             e = _parse_unauthorized(body)      # returns the error it would raise
             raised, reason = type(e).__name__, str(getattr(e.reason, "value", e.reason))
         else:
-            fake = _Fake401(body, "text/html" if case["shape"].startswith("html") else "application/json")
+            fake = _Fake401(body, ctype)
             with http_connect(CProto, client=fake) as proxy:
                 if case["entry"] == "unary":
                     proxy.plain(x=1)
@@ -266,16 +338,37 @@ def run(ctx: Ctx) -> None:
     ubody = W.unary_body(svc.server, "plain")
 
     obs: list = []
-    for cj in cases:
+    uniq = [0]
+
+    def flood(client) -> None:
+        """Make the service render more distinct (reason, detail) pairs than its body cache holds, in both
+        representations (requests of the kind the stub leaves of this service understand)."""
+        for i in range(70):
+            uniq[0] += 1
+            for acc in ("*/*", "text/html"):
+                _send(client, "unary", {"X-Out-N1": "inv", "X-Detail": f"u:{uniq[0]}", "Accept": acc}, ubody)
+
+    # all "fresh" cases first; then every service that has "flooded" cases is flooded; then those cases
+    for cj in sorted(cases, key=lambda c: c["case"].get("cache", "fresh") != "fresh"):
         case = cj["case"]
         key, (client, book) = svc.app(case["cfg"], case["tree"])
-        real = '"bearer"' in json.dumps(case["tree"]) or '"proof_' in json.dumps(case["tree"])
+        if case.get("cache") == "flooded" and not book["flooded"]:
+            flood(client)
+            book["flooded"] = True
+        tj = json.dumps(case["tree"])
+        real = '"bearer"' in tj or '"proof_' in tj or '"pem"' in tj
         seen_h = set()
         for _variant in range(1 if (quick or not real) else 3):      # several concrete credentials / proofs per class
             hdrs = W.tree_headers(case["tree"], ctx.rng)
             acc = ACCEPT[case["accept"]]
             if acc is not None:
                 hdrs["Accept"] = acc
+            d = case.get("detail", "default")
+            if d == "unique":
+                uniq[0] += 1
+                hdrs["X-Detail"] = f"u:{uniq[0]}"
+            elif d != "default":
+                hdrs["X-Detail"] = d
             hk = json.dumps({k: (v if k != "VGI-Proxy-Proof" else v.split(".")[1:3]) for k, v in sorted(hdrs.items())})
             if hk in seen_h and _variant:
                 continue
@@ -286,9 +379,10 @@ def run(ctx: Ctx) -> None:
             if status == 401:
                 nid = book["notes"].setdefault(note, len(book["notes"]) + 1) if note != json.dumps(["", ""]) else 0
                 book["seq"].append(nid)
-            conc = {"service": key, "route": case["route"], "headers": {k: v for k, v in sorted(hdrs.items())}}
+            conc = {"service": key, "route": case["route"], "headers": {k: v for k, v in sorted(hdrs.items())},
+                    "cache": case.get("cache", "fresh")}
             obs.append({"case": case, "obs": o, "_c": conc, "_exp": cj["exp"], "_log": list(W.LOG)})
-            ctx.case([key, case["route"], sorted(hdrs.items())])
+            ctx.case([key, case["route"], case.get("cache", "fresh"), sorted(hdrs.items())])
     for o in (obs[:: max(1, len(obs) // 3)])[:3]:
         ctx.sample({"abstract_case": o["case"], "oracle": o["_exp"], "concrete": o["_c"], "observed": o["obs"],
                     "authenticator_log": o["_log"]})
@@ -304,6 +398,7 @@ def run(ctx: Ctx) -> None:
         judged.append(({"case": o["case"], "obs": {**o["obs"], "side": "server"}},
                        {"side": "server", "tree_kind": o["case"]["tree"]["k"], "route": o["case"]["route"],
                         "accept": o["case"]["accept"], "cfg": o["case"]["cfg"], "expected": o["_exp"].get("r"),
+                        "detail": o["case"].get("detail"), "cache": o["case"].get("cache"),
                         "status": o["obs"]["status"], "hreason": o["obs"]["hreason"]},
                        {"side": "server", "case": o["case"], "exp": o["_exp"], "concrete": o["_c"], "observed": o["obs"]}))
     # service level: one observation per service = the identities of the notes on all its 401s
